@@ -71,6 +71,22 @@ func semiSetMeasured() {
 		{"general-comment-eof", " /* c */", true},
 		{"two-comments", " /* c */ /* d */ // e\nx", true},
 		{"general-comment-same-line", " /* c */ x", false},
+		// comment texts that look like comment delimiters (the line-end look-ahead must find the real terminator)
+		{"general-comment-slash-after-open-multi-line", " /*/ c\n*/ x", true},
+		{"general-comment-slash-after-open-newline-first", " /*/\n*/ x", true},
+		{"general-comment-slash-after-open-same-line", " /*/ c */ x", false},
+		{"general-comment-stars-multi-line", " /***\n***/ x", true},
+		{"general-comment-empty-same-line", " /**/ x", false},
+		{"general-comment-star-space-slash-multi-line", " /* a * / b\n*/ x", true},
+		{"general-comment-holding-line-comment-same-line", " /* // c */ x", false},
+		{"general-comment-holding-line-comment-multi-line", " /* // c\n*/ x", true},
+		{"general-comment-holding-open-multi-line", " /* /* c\n*/ x", true},
+		{"line-comment-holding-general-comment", " // /* c */ d\nx", true},
+		{"line-comment-holding-open", " // /* c\nx", true},
+		{"general-comment-crlf", " /* c\r\n*/ x", true},
+		{"two-general-comments-second-multi-line", " /* c */ /*/ d\n*/ x", true},
+		{"two-general-comments-same-line", " /*/*/ /* d */ x", false},
+		{"general-comment-then-line-comment-holding-open", " /* c */ // /* d\nx", true},
 		{"space", " x", false},
 	}
 	var all []token.Token
@@ -147,6 +163,8 @@ var separators = []struct {
 }{
 	{"\n", true}, {"\t", false}, {"/*c*/", false}, {" /* c */ ", false}, {" //c\n", true}, {"/*\n*/", true},
 	{" \r\n ", true}, {" /*c*/ // d\n", true}, {"\n\n", true}, {" /* a */ /* b\n */ ", true},
+	{"/*/ c\n*/", true}, {" /*/\n*/ ", true}, {"/*/ c */", false}, {"/**/", false}, {"/***\n**/", true}, {" /* a * / b\n*/ ", true},
+	{" /* // c */ ", false}, {" /* // c\n*/ ", true}, {" // /* c */\n", true}, {" /* c */ /*/ d\n*/ ", true}, {" /*/*/ ", false},
 }
 
 // layouts: every separator in every gap of every template. Oracle: the token stream equals the one of
